@@ -836,6 +836,28 @@ func (s *Sim) fillValidBody(m sdk.Msg, r *Rng) {
 	}
 }
 
+// zeroOneField sets one drawn field (other than the signer) of a message to its zero value.
+func zeroOneField(m sdk.Msg, signerField string, r *Rng) string {
+	v := reflect.ValueOf(m).Elem()
+	t := v.Type()
+	var idx []int
+	for i := 0; i < t.NumField(); i++ {
+		tag := t.Field(i).Tag.Get("protobuf")
+		if tag == "" || strings.Contains(tag, "name="+signerField+",") {
+			continue
+		}
+		if v.Field(i).CanSet() {
+			idx = append(idx, i)
+		}
+	}
+	if len(idx) == 0 {
+		return "none"
+	}
+	i := idx[r.Intn(len(idx))]
+	v.Field(i).Set(reflect.Zero(t.Field(i).Type))
+	return t.Field(i).Name
+}
+
 func (s *Sim) auditImpostor(r *Rng) {
 	e := s.Env
 	auth := e.Authority.Addr.String()
@@ -862,10 +884,15 @@ func (s *Sim) auditImpostor(r *Rng) {
 				panic(harnessErr("cannot instantiate %s", mm.Input))
 			}
 			body := "valid"
-			if r.Intn(3) > 0 {
-				s.fillValidBody(msg, r)
-			} else {
+			switch r.Intn(4) {
+			case 0:
 				body = "zero"
+			case 1:
+				// a valid body with one drawn non-signer field emptied (e.g. an empty counterparty list)
+				s.fillValidBody(msg, r)
+				body = "valid-with-empty-field:" + zeroOneField(msg, mm.SignerField, r)
+			default:
+				s.fillValidBody(msg, r)
 			}
 			br := s.N.Branch()
 			before := s.N.DumpStore(br, "orbiter")
